@@ -112,6 +112,15 @@ func (a *GsfaWriter) fullBufferWriter() {
 			klog.Infof("remaining %d buffers to flush", len(a.fullBufferWriterChan))
 		}
 		if a.exiting.Load() && len(a.fullBufferWriterChan) == 0 {
+			// Write the full buffers that are still parked; nobody else will.
+			for _, buf := range tmpBuf {
+				if len(buf.Values) == 0 {
+					continue
+				}
+				if err := a.flushKVs(buf); err != nil {
+					klog.Errorf("Error while flushing transactions for key %s: %v", buf.Key, err)
+				}
+			}
 			a.fullBufferWriterDone <- struct{}{}
 			return // exit
 		}
@@ -230,12 +239,14 @@ const itemsPerBatch = 1000
 func (a *GsfaWriter) Close() error {
 	a.mu.Lock()
 	defer a.mu.Unlock()
+	// Let the background writer drain first: the full buffers it holds are older
+	// than what is left in accum, and the log must receive older entries first.
+	a.exiting.Store(true)
+	<-a.fullBufferWriterDone
 	if err := a.flushAccum(a.accum); err != nil {
 		return err
 	}
-	a.exiting.Store(true)
 	klog.Info("Closing linked log...")
-	<-a.fullBufferWriterDone
 	klog.Info("Closing full buffer writer...")
 	a.cancel()
 	{
